@@ -171,7 +171,7 @@ macro_rules! parts {
             name: "limited-vs-unlimited",
             sys: &Sys,
             cfgs: match tier {
-                Tier::Quick => cfgs(&[(2, 2), (3, 2), (1, 2)], LIMITS),
+                Tier::Quick => cfgs(&[(2, 2), (2, 3), (1, 2)], LIMITS),
                 Tier::Thorough => cfgs(&[(2, 2), (3, 2), (2, 3), (1, 2)], LIMITS),
             },
             alphabet: &alpha,
